@@ -92,6 +92,7 @@ package jpeg
 //@   modifies jr.discarded, stream(jr.br)
 //@   ghost hOff uint32 = exifHeader.TiffHeaderOffset
 //@   ghost hLen uint32 = exifHeader.ExifLength
+//@   ensures [C02] err == nil ==> pos(jr.br) >= old(pos(jr.br)) + 10
 //@   ensures [C10] hOff != 0 || hLen != 0 ==> hOff == old(jr.discarded) + 10 && hLen == uint32(int(jr.size) - 8)
 //@   ensures [C10] pos(jr.br) >= old(pos(jr.br))
 //@   ensures [C10] err == nil && jr.ExifReader == nil ==> pos(jr.br) == old(pos(jr.br)) + 2 + int(jr.size)
@@ -119,6 +120,7 @@ package jpeg
 //@   requires atMarker(jr)
 //@   modifies jr.err, jr.discarded, stream(jr.br), io.LimitedReader.N
 //@   ensures [C10] pos(jr.br) >= old(pos(jr.br))
+//@   ensures [C02] jr.err == nil ==> pos(jr.br) > old(pos(jr.br))
 //@   ensures [C10] jr.err == nil && jr.ExifReader == nil ==> pos(jr.br) == old(pos(jr.br)) + 2 + int(jr.size)
 
 //@ func (*jpegReader).readAPPMarker
@@ -126,6 +128,7 @@ package jpeg
 //@   requires atMarker(jr)
 //@   modifies jr.err, jr.discarded, stream(jr.br), io.LimitedReader.N
 //@   ensures [C10] pos(jr.br) >= old(pos(jr.br))
+//@   ensures [C02] jr.err == nil ==> pos(jr.br) > old(pos(jr.br))
 //@   ensures [C10] jr.err == nil && jr.ExifReader == nil ==> pos(jr.br) == old(pos(jr.br)) + 2 + int(jr.size)
 
 // ScanJPEG: the marker loop. Termination: every iteration either consumes input or sets the sticky error.
